@@ -274,4 +274,18 @@ PROPS = {
         "trusted_base": ["as C11"],
         "assumptions": ["as C11"],
     },
+    "C16": {
+        "level": "proof",
+        "lean_targets": ["LP.Props.C16"],
+        "harnesses": [{"name": "h_infer", "quick": 1500, "thorough": 40000}],
+        "select": lambda t: t[1] == "inf",
+        "nontrivial": lambda t, r: not (len(r) >= 1 and r[0] == "0"),
+        "rule": "bounds: sums of univariate quadratics a_k x_k^2 + b_k x_k over 1-4 distinct variables plus a constant, coefficients of "
+                "either sign (8% mixed signs), optional cross / cubic terms, the whole polynomial negated in 35%, all six conditions, "
+                "both polarities, with the explanation polynomial of every bounded variable; fm: pairs [V*y^2 +] L*y + N with L in "
+                "{+-1..3, x0, x0-1, x1, x0^2-2, -x1, x0+x1}, V vanishing under the model, N random, all 36 condition pairs, rational and "
+                "sqrt2 models. Non-trivial = the library made a claim (rc != 0 / ok = 1).",
+        "trusted_base": ["projection end points are compared through the proved algebraic-number comparison"],
+        "assumptions": [],
+    },
 }
